@@ -90,10 +90,10 @@ def autoAfter : Nat → List (Option EntId × List Item) → Nat
   | n, (none, _) :: r => autoAfter (n + 1) r
 
 /-- Well-formedness of a description whose types are classes (after the type transformer, or as
-given to `populate_world_from_dict`).  `pre`: processor types present before (the default ones). -/
+given to `populate_world_from_dict`) and whose constructor calls do not raise.  `pre`: processor types present before (the default ones). -/
 def WellFormed (U : Universe) (pre : List Nat) (td : Desc) : Prop :=
-  (∀ d ∈ td.processors, isCls d = true ∧ isProc U (clsOf d) = true) ∧
-  (∀ e ∈ td.entities, ∀ d ∈ e.2, isCls d = true) ∧
+  (∀ d ∈ td.processors, (isCls d = true ∧ U.ctorRaises d.label = false) ∧ isProc U (clsOf d) = true) ∧
+  (∀ e ∈ td.entities, ∀ d ∈ e.2, isCls d = true ∧ U.ctorRaises d.label = false) ∧
   (pre ++ td.processors.map clsOf).Nodup ∧
   (∀ e ∈ td.entities, (e.2.map clsOf).Nodup) ∧
   ((withIds 1 td.entities).map (·.1)).Nodup
